@@ -10,6 +10,8 @@ INPUT_SETS = {
                    "alpha", "betax", "betay", "betaz", "dtalpha", "dtbetax", "dtbetay", "dtbetaz",
                    "rho0", "eps", "press", "w_lorentz", "velx", "vely", "velz"],
     "minimal": ["gammadown3", "Kdown3", "alpha", "rho"],
+    # shift handed over by its non-zero components only (beta^x = 0 is left to the default)
+    "partial": ["gammadown3", "Kdown3", "alpha", "betay", "betaz", "Tdown4"],
 }
 
 INVARIANTS = ["AgeTableSubsetOfCache", "FrozenNeverEvicted", "FrozenNeverAltered", "PolicyRefinement",
